@@ -446,35 +446,49 @@ func ruleSelect(c *Ctx) {
 		c.Undecided("SELECT", "anchor:MakeCipherEntry", "-", "MakeCipherEntry not found")
 		return
 	}
-	// the selecting condition: (SaltSize(key) - mark >= ent) with key = parameter; true edge → NewServerSaltGenerator(secret), false edge → RandomServerSaltGenerator
+	// the selecting condition, wherever it lives in MakeCipherEntry's helpers: (SaltSize(key) [- k]) <op> const
+	reg := c.NewRegion(mk, 3, func(h *ssa.Function) bool { return eng.PkgPathOf(h) != eng.Mod+"/service" })
+	isSaltSize := func(v ssa.Value) bool {
+		cc, _, ok := eng.AsResult(v)
+		return ok && eng.CalleeName(&cc.Call) == "(*sdk/shadowsocks.EncryptionKey).SaltSize"
+	}
 	var sel *ssa.If
 	thr := int64(-1)
-	for _, b := range mk.Blocks {
-		iff, ok := b.Instrs[len(b.Instrs)-1].(*ssa.If)
-		if !ok {
-			continue
-		}
-		bo, ok := iff.Cond.(*ssa.BinOp)
-		if !ok || bo.Op != token.GEQ && bo.Op != token.GTR {
-			continue
-		}
-		rhs, ok := eng.ConstInt(bo.Y)
-		if !ok {
-			continue
-		}
-		lhs := bo.X
-		off := int64(0)
-		if sub, ok := lhs.(*ssa.BinOp); ok && sub.Op == token.SUB {
-			if k, ok := eng.ConstInt(sub.Y); ok {
-				off = k
-				lhs = sub.X
+	markedOnTrue := true
+	for _, f := range reg.Fns {
+		for _, b := range f.Blocks {
+			iff, ok := b.Instrs[len(b.Instrs)-1].(*ssa.If)
+			if !ok {
+				continue
 			}
-		}
-		if call, ok := lhs.(*ssa.Call); ok && eng.CalleeName(&call.Call) == "(*sdk/shadowsocks.EncryptionKey).SaltSize" {
-			sel = iff
-			thr = rhs + off
-			if bo.Op == token.GTR {
-				thr++
+			bo, ok := iff.Cond.(*ssa.BinOp)
+			if !ok {
+				continue
+			}
+			rhs, ok := eng.ConstInt(bo.Y)
+			if !ok {
+				continue
+			}
+			lhs := bo.X
+			off := int64(0)
+			if sub, ok := lhs.(*ssa.BinOp); ok && sub.Op == token.SUB {
+				if k, ok := eng.ConstInt(sub.Y); ok {
+					off = k
+					lhs = sub.X
+				}
+			}
+			if g, _ := p.AllFrom(lhs, deepF, isSaltSize); !g {
+				continue
+			}
+			switch bo.Op {
+			case token.GEQ:
+				sel, thr, markedOnTrue = iff, rhs+off, true
+			case token.GTR:
+				sel, thr, markedOnTrue = iff, rhs+off+1, true
+			case token.LSS:
+				sel, thr, markedOnTrue = iff, rhs+off, false
+			case token.LEQ:
+				sel, thr, markedOnTrue = iff, rhs+off+1, false
 			}
 		}
 	}
@@ -483,49 +497,64 @@ func ruleSelect(c *Ctx) {
 		return
 	}
 	c.CheckAt("SELECT", short(mk)+":threshold-is-20", sel, thr == 20, fmt.Sprintf("the marking generator is selected for salt sizes >= %d, not >= 20", thr))
-	// which generator on which edge: inspect the Phi / stores feeding the SaltGenerator field of the result
-	tBlk, fBlk := sel.Block().Succs[0], sel.Block().Succs[1]
+	// which generator on which edge: every origin of the entry's SaltGenerator is the marking generator created behind the
+	// ">= threshold" edge or the plain random generator loaded behind the other edge
+	sf := sel.Parent()
+	mEdge := eng.Edge{From: sel.Block(), To: sel.Block().Succs[0]}
+	rEdge := eng.Edge{From: sel.Block(), To: sel.Block().Succs[1]}
+	if !markedOnTrue {
+		mEdge, rEdge = rEdge, mEdge
+	}
 	var genVal ssa.Value
 	for _, st := range p.FieldStores("service.CipherEntry", "SaltGenerator") {
 		if st.Fn == mk && st.Val != nil {
 			genVal = st.Val
 		}
 	}
-	okSel := false
-	if ph, ok := genVal.(*ssa.Phi); ok {
-		okT, okF := false, false
-		for i, e := range ph.Edges {
-			pred := ph.Block().Preds[i]
-			fromT := pred == tBlk || tBlk.Dominates(pred)
-			fromF := pred == fBlk || fBlk.Dominates(pred)
-			isMarked := p.AnyFrom(e, eng.Plain, func(v ssa.Value) bool {
-				cc, _, ok := eng.AsResult(v)
-				return ok && eng.CalleeName(&cc.Call) == "service.NewServerSaltGenerator"
-			})
-			isRandom := p.AnyFrom(e, eng.Plain, func(v ssa.Value) bool {
-				u, ok := v.(*ssa.UnOp)
-				if !ok {
-					return false
+	okSel, nM, nR := genVal != nil, 0, 0
+	why := ""
+	if genVal != nil {
+		oo := deepF
+		oo.Stop = func(v ssa.Value) bool {
+			cc, _, ok := eng.AsResult(v)
+			return ok && eng.CalleeName(&cc.Call) == "service.NewServerSaltGenerator"
+		}
+		for _, o := range p.Origins(genVal, oo) {
+			var at ssa.Instruction
+			marked := false
+			if cc, _, ok := eng.AsResult(o); ok && eng.CalleeName(&cc.Call) == "service.NewServerSaltGenerator" {
+				at, marked = cc, true
+			} else if u, ok := o.(*ssa.UnOp); ok {
+				if g, ok := u.X.(*ssa.Global); ok && g.Name() == "RandomServerSaltGenerator" {
+					at = u
 				}
-				g, ok := u.X.(*ssa.Global)
-				return ok && g.Name() == "RandomServerSaltGenerator"
-			})
-			if fromT && isMarked {
-				okT = true
 			}
-			if fromF && isRandom {
-				okF = true
+			if at == nil || at.Parent() != sf {
+				okSel = false
+				why = "an origin of the generator is neither of the two generators, or is not selected in " + short(sf) + ": " + valStr(p, o)
+				continue
+			}
+			if marked {
+				nM++
+				if !eng.Cut(sf, at.Block(), eng.EdgeSet{mEdge: true}) {
+					okSel, why = false, "the marking generator is created outside the >= threshold edge"
+				}
+			} else {
+				nR++
+				if !eng.Cut(sf, at.Block(), eng.EdgeSet{rEdge: true}) {
+					okSel, why = false, "the plain random generator is chosen outside the < threshold edge"
+				}
 			}
 		}
-		okSel = okT && okF
 	}
-	c.CheckAt("SELECT", short(mk)+":marked-iff-threshold", sel, okSel, "the entry's salt generator is not (marking generator on the >= threshold edge, plain random generator on the other edge)")
+	c.CheckAt("SELECT", short(mk)+":marked-iff-threshold", sel, okSel && nM > 0 && nR > 0, "the entry's salt generator is not (marking generator on the >= threshold edge, plain random generator on the other edge): "+why)
 	// the marking generator is keyed by this entry's secret
-	for _, cl := range eng.Calls(mk) {
-		if call, ok := cl.(*ssa.Call); ok && eng.CalleeName(&call.Call) == "service.NewServerSaltGenerator" {
-			okS, _ := p.AllFrom(call.Call.Args[0], eng.Plain, func(v ssa.Value) bool { _, isP := v.(*ssa.Parameter); return isP })
-			c.CheckAt("SELECT", short(mk)+":generator-keyed-by-secret", call, okS, "the marking generator is not keyed by the entry's secret parameter")
-		}
+	for _, call := range reg.FindCalls(func(n string, _ *ssa.Call) bool { return n == "service.NewServerSaltGenerator" }) {
+		okS, _ := p.AllFrom(call.Call.Args[0], deepF, func(v ssa.Value) bool {
+			pa, isP := v.(*ssa.Parameter)
+			return isP && pa.Parent() == mk && pa.Type().String() == "string"
+		})
+		c.CheckAt("SELECT", short(mk)+":generator-keyed-by-secret", call, okS, "the marking generator is not keyed by the entry's secret parameter")
 	}
 }
 
@@ -578,92 +607,140 @@ func ruleConstruct(c *Ctx) {
 func ruleAgree(c *Ctx) {
 	p := c.P
 	mark, _ := constInt(c, "service.serverSaltMarkLen")
-	const T = "service.serverSaltGenerator"
-	get, is := fnByMethod(c, "service", T, "GetSalt"), fnByMethod(c, "service", T, "IsServerSalt")
-	if get == nil || is == nil {
-		c.Undecided("AGREE", "anchor:serverSaltGenerator", "-", "marking generator has no GetSalt/IsServerSalt")
-		return
+	inSvc := func(h *ssa.Function) bool { return eng.PkgPathOf(h) != eng.Mod+"/service" }
+	isCompare := func(n string) bool {
+		return n == "bytes.Equal" || n == "crypto/hmac.Equal" || n == "crypto/subtle.ConstantTimeCompare"
 	}
-	calls := func(f *ssa.Function, name string) *ssa.Call {
-		for _, cl := range eng.Calls(f) {
-			if call, ok := cl.(*ssa.Call); ok && eng.CalleeName(&call.Call) == name {
-				return call
-			}
-		}
-		return nil
-	}
-	split, tag := "("+T+").splitSalt", "("+T+").getTag"
-	for _, f := range []*ssa.Function{get, is} {
-		sc, tc := calls(f, split), calls(f, tag)
-		c.Check("AGREE", short(f)+":uses-shared-split-and-tag", p.Pos(f.Pos()), sc != nil && tc != nil, "GetSalt and IsServerSalt do not both go through the same split and tag helpers")
-		if sc == nil || tc == nil {
+	// the marking generator, by role: the IsServerSalt implementation that compares bytes (the random generator's returns false)
+	var get, is *ssa.Function
+	var greg, ireg *Region
+	for _, f := range p.FnsIn("service") {
+		if f.Name() != "IsServerSalt" || f.Parent() != nil || f.Synthetic != "" || f.Signature.Recv() == nil {
 			continue
 		}
-		// split is applied to the salt parameter, tag to the prefix it returned
-		okS, _ := p.AllFrom(sc.Call.Args[1], eng.Plain, func(v ssa.Value) bool { return eng.IsParam(v, f, 1) })
-		okT, _ := p.AllFrom(tc.Call.Args[1], eng.Plain, func(v ssa.Value) bool { return eng.ResultOf(v, sc, 0) })
-		c.CheckAt("AGREE", short(f)+":split(salt)-then-tag(prefix)", tc, okS && okT, "the tag is not computed over the prefix that splitSalt returned for this salt")
+		r := c.NewRegion(f, 3, inSvc)
+		if len(r.FindCalls(func(n string, _ *ssa.Call) bool { return isCompare(n) })) == 0 {
+			continue
+		}
+		is, ireg = f, r
+		get = fnByMethod(c, "service", eng.TypeName(f.Signature.Recv().Type()), "GetSalt")
+	}
+	if get == nil || is == nil {
+		c.Undecided("AGREE", "anchor:marking-generator", "-", "no salt generator whose IsServerSalt compares bytes and that also has GetSalt")
+		return
+	}
+	greg = c.NewRegion(get, 3, inSvc)
+	// shared helpers, by role: the function that creates the MAC state (tag helper) and the one that returns two byte slices (split helper)
+	var tagFn, splitFn *ssa.Function
+	for _, h := range greg.Fns {
+		if !ireg.In[h] || h == get || h == is {
+			continue
+		}
+		if bodyHas(h, isCall("crypto/hmac.New")) {
+			tagFn = h
+		}
+		n := 0
+		rs := h.Signature.Results()
+		for i := 0; i < rs.Len(); i++ {
+			if rs.At(i).Type().String() == "[]byte" {
+				n++
+			}
+		}
+		if n >= 2 {
+			splitFn = h
+		}
+	}
+	for _, f := range []*ssa.Function{get, is} {
+		c.Check("AGREE", short(f)+":uses-shared-split-and-tag", p.Pos(f.Pos()), tagFn != nil && splitFn != nil, "GetSalt and IsServerSalt do not both go through one shared split helper and one shared tag helper: issued and recognised marks can disagree")
+	}
+	if tagFn == nil || splitFn == nil {
+		return
+	}
+	isSplit := func(idx int) func(ssa.Value) bool {
+		return func(v ssa.Value) bool {
+			cc, i, ok := eng.AsResult(v)
+			return ok && i == idx && callTo(c, cc, splitFn)
+		}
+	}
+	isTag := func(v ssa.Value) bool {
+		cc, _, ok := eng.AsResult(v)
+		if !ok {
+			return false
+		}
+		return callTo(c, cc, tagFn) || (cc.Call.IsInvoke() && cc.Call.Method.Name() == "Sum")
+	}
+	thru := eng.OriginOpts{ThroughConvert: true, ThroughSlice: true, Interproc: true}
+	for _, pair := range []struct {
+		f   *ssa.Function
+		reg *Region
+	}{{get, greg}, {is, ireg}} {
+		f := pair.f
+		for _, sc := range pair.reg.FindCalls(func(_ string, call *ssa.Call) bool { return callTo(c, call, splitFn) }) {
+			okS, _ := p.AllFrom(sc.Call.Args[len(sc.Call.Args)-1], deepF, func(v ssa.Value) bool { return eng.IsParam(v, f, 1) })
+			c.CheckAt("AGREE", short(f)+":splits-the-given-salt", sc, okS, "the split helper is not applied to the salt passed in")
+		}
+		for _, tc := range pair.reg.FindCalls(func(_ string, call *ssa.Call) bool { return callTo(c, call, tagFn) }) {
+			okT, _ := p.AllFrom(tc.Call.Args[len(tc.Call.Args)-1], deepF, isSplit(0))
+			c.CheckAt("AGREE", short(f)+":split(salt)-then-tag(prefix)", tc, okT, "the tag is not computed over the prefix that the split helper returned for this salt")
+		}
+	}
+	// the first markLen bytes of the tag, however they are cut out
+	markOfTag := func(v ssa.Value) bool {
+		ok, _ := p.AllFrom(v, deepF, func(x ssa.Value) bool {
+			s, isS := x.(*ssa.Slice)
+			if !isS || s.Low != nil || s.High == nil {
+				return false
+			}
+			k, isK := eng.ConstInt(s.High)
+			return isK && k == mark && p.AnyFrom(s.X, thru, isTag)
+		})
+		return ok
 	}
 	// IsServerSalt compares tag[:markLen] with the mark part
 	okCmp := false
-	for _, cl := range eng.Calls(is) {
-		if call, ok := cl.(*ssa.Call); ok && eng.CalleeName(&call.Call) == "bytes.Equal" {
-			for i, a := range call.Call.Args {
-				if s, ok := a.(*ssa.Slice); ok && s.High != nil {
-					if k, ok := eng.ConstInt(s.High); ok && k == mark && s.Low == nil {
-						other := call.Call.Args[1-i]
-						if g, _ := p.AllFrom(other, eng.Plain, func(v ssa.Value) bool {
-							cc, idx, ok := eng.AsResult(v)
-							return ok && idx == 1 && eng.CalleeName(&cc.Call) == split
-						}); g {
-							okCmp = true
-						}
-					}
-				}
+	for _, call := range ireg.FindCalls(func(n string, _ *ssa.Call) bool { return isCompare(n) }) {
+		for i := 0; i < 2; i++ {
+			other, _ := p.AllFrom(call.Call.Args[1-i], deepF, isSplit(1))
+			if other && markOfTag(call.Call.Args[i]) {
+				okCmp = true
 			}
 		}
 	}
-	c.Check("AGREE", short(is)+":compares-markLen-bytes-of-tag-with-mark", p.Pos(is.Pos()), okCmp, "IsServerSalt does not compare tag[:serverSaltMarkLen] with the mark returned by splitSalt")
+	c.Check("AGREE", short(is)+":compares-markLen-bytes-of-tag-with-mark", p.Pos(is.Pos()), okCmp, "IsServerSalt does not compare the first serverSaltMarkLen bytes of the tag with the mark part returned by the split helper")
 	// GetSalt copies the tag into the mark part
 	okCopy := false
-	for _, cl := range eng.Calls(get) {
+	for _, cl := range greg.Calls() {
 		if call, ok := cl.(*ssa.Call); ok {
 			if b, ok := call.Call.Value.(*ssa.Builtin); ok && b.Name() == "copy" {
-				d, _ := p.AllFrom(call.Call.Args[0], eng.Plain, func(v ssa.Value) bool {
-					cc, idx, ok := eng.AsResult(v)
-					return ok && idx == 1 && eng.CalleeName(&cc.Call) == split
-				})
-				s, _ := p.AllFrom(call.Call.Args[1], eng.OriginOpts{ThroughConvert: true}, func(v ssa.Value) bool {
-					cc, _, ok := eng.AsResult(v)
-					return ok && eng.CalleeName(&cc.Call) == tag
-				})
-				if d && s {
+				d, _ := p.AllFrom(call.Call.Args[0], deepF, isSplit(1))
+				s2 := p.AnyFrom(call.Call.Args[1], thru, isTag)
+				s3, _ := p.AllFrom(call.Call.Args[1], thru, isTag)
+				if d && s2 && s3 {
 					okCopy = true
 				}
 			}
 		}
 	}
-	c.Check("AGREE", short(get)+":writes-tag-into-mark", p.Pos(get.Pos()), okCopy, "GetSalt does not copy the tag into the mark part returned by splitSalt")
-	// splitSalt splits at len(salt) - markLen
-	if sp := fnByMethod(c, "service", T, "splitSalt"); sp != nil {
-		okSp := false
-		for _, b := range sp.Blocks {
-			for _, ins := range b.Instrs {
-				if bo, ok := ins.(*ssa.BinOp); ok && bo.Op == token.SUB {
-					if k, ok := eng.ConstInt(bo.Y); ok && k == mark {
-						if call, ok := bo.X.(*ssa.Call); ok {
-							if bi, ok := call.Call.Value.(*ssa.Builtin); ok && bi.Name() == "len" {
-								okSp = true
-							}
+	c.Check("AGREE", short(get)+":writes-tag-into-mark", p.Pos(get.Pos()), okCopy, "GetSalt does not copy the tag into the mark part returned by the split helper")
+	// the split helper splits at len(salt) - markLen
+	okSp := false
+	for _, b := range splitFn.Blocks {
+		for _, ins := range b.Instrs {
+			if bo, ok := ins.(*ssa.BinOp); ok && bo.Op == token.SUB {
+				if k, ok := eng.ConstInt(bo.Y); ok && k == mark {
+					if call, ok := bo.X.(*ssa.Call); ok {
+						if bi, ok := call.Call.Value.(*ssa.Builtin); ok && bi.Name() == "len" {
+							okSp = true
 						}
 					}
 				}
 			}
 		}
-		c.Check("AGREE", short(sp)+":splits-at-len-minus-markLen", p.Pos(sp.Pos()), okSp, "splitSalt does not split at len(salt) - serverSaltMarkLen")
 	}
+	c.Check("AGREE", short(splitFn)+":splits-at-len-minus-markLen", p.Pos(splitFn.Pos()), okSp, "the split helper does not split at len(salt) - serverSaltMarkLen")
 	// the tag is computed with hash state created in the same call: one generator is shared, without a lock, by all connections of a key
-	if tg := fnByMethod(c, "service", T, "getTag"); tg != nil {
+	{
+		tg := tagFn
 		nh := 0
 		for _, cl := range eng.Calls(tg) {
 			call, ok := cl.(*ssa.Call)
@@ -690,7 +767,7 @@ func ruleAgree(c *Ctx) {
 		}
 		n++
 		okR := false
-		for _, cl := range eng.Calls(f) {
+		for _, cl := range c.NewRegion(f, 3, inSvc).Calls() {
 			if eng.CalleeName(cl.Common()) == "crypto/rand.Read" {
 				okR = true
 			}
